@@ -67,11 +67,11 @@ class InteractiveParser:
         return self.copy()
 
     def copy(self, deepcopy_values=True):
-        return type(self)(
-            self.parser,
-            self.parser_state.copy(deepcopy_values=deepcopy_values),
-            copy(self.lexer_thread),
-        )
+        lexer_thread = copy(self.lexer_thread)
+        parser_state = self.parser_state.copy(deepcopy_values=deepcopy_values)
+        # resume_parse() lexes through the state's lexer: the copy must go on with its own lexer thread
+        parser_state.lexer = lexer_thread
+        return type(self)(self.parser, parser_state, lexer_thread)
 
     def __eq__(self, other):
         if not isinstance(other, InteractiveParser):
